@@ -319,7 +319,7 @@ func (r *runner) setup(plans []*plan.Plan, names []string, imports []int) {
 	} else {
 		cfg = wazero.NewRuntimeConfigCompiler()
 	}
-	cfg = cfg.WithCoreFeatures(api.CoreFeaturesV2 | experimental.CoreFeaturesTailCall)
+	cfg = cfg.WithCoreFeatures(api.CoreFeaturesV2 | experimental.CoreFeaturesTailCall | experimental.CoreFeaturesThreads)
 	r.rt = wazero.NewRuntimeWithConfig(r.ctx, cfg)
 	if _, err := wasi_snapshot_preview1.Instantiate(r.ctx, r.rt); err != nil {
 		panic(err)
